@@ -221,6 +221,11 @@ class _Lower:
             return L(ast.IfExp(test=self.expr(getattr(n, 'condition', None) or n.test), body=self.expr(n.true_val), orelse=self.expr(n.false_val)))
         if t == "TypecastNode":
             return self.expr(n.operand)
+        if t == "YieldExprNode":
+            return L(ast.Yield(value=self.expr(n.arg) if n.arg is not None else None))
+        if t == "JoinedStrNode":
+            # f-string: only ever used for messages in the functions under contract; kept as an opaque string constant
+            return L(ast.Constant(value="<f-string>"))
         if t == "NewExprNode":
             return L(ast.Call(func=L(ast.Name(id="__new__", ctx=ast.Load())), args=[L(ast.Constant(value=self.type_name(n.cppclass)))], keywords=[]))
         if t == "SliceIndexNode":
